@@ -1,4 +1,7 @@
 pub mod c06;
+pub mod c07;
+pub mod c08;
+pub mod c09;
 pub mod c30;
 pub mod c31;
 pub mod c33;
@@ -6,5 +9,5 @@ pub mod c33;
 use crate::kit::core::Scenario;
 
 pub fn registry() -> Vec<Box<dyn Scenario>> {
-    vec![Box::new(c06::C06), Box::new(c30::C30), Box::new(c31::C31), Box::new(c33::C33)]
+    vec![Box::new(c06::C06), Box::new(c07::C07), Box::new(c08::C08), Box::new(c09::C09), Box::new(c30::C30), Box::new(c31::C31), Box::new(c33::C33)]
 }
